@@ -990,12 +990,12 @@ Section Under.
   Definition rels_ok (q : req) : Prop := forall s, In s (rels q) -> ok (split_slash s).
 
   Lemma calls_object_cok : forall fx q, good (q_bucket q) -> forbid (q_bucket q) = false ->
-    object_route (q_route q) = true -> rels_ok q -> src_bad q = false -> req_noslash q = false ->
+    object_route (q_route q) = true -> rels_ok q -> src_bad q = false ->
     Forall cokc (calls fx q).
   Proof.
-    intros fx q G Bb OR HR HS HP.
+    intros fx q G Bb OR HR HS.
     destruct (norm_object_form (q_object q)) as [k Ek].
-    unfold rels_ok, rels, rel_object in HR. unfold src_bad in HS. unfold req_noslash in HP.
+    unfold rels_ok, rels, rel_object in HR. unfold src_bad in HS.
     unfold calls. rewrite Ek in *.
     destruct (q_route q) eqn:ER; try discriminate OR.
     - (* RPut *)
@@ -1054,13 +1054,8 @@ Section Under.
       destruct (dir_and_name (bucket_dir (q_bucket q) ++ String slash k)) as [d n] eqn:DN.
       apply within_forall. simpl in DLU. inversion DLU; subst. constructor; [assumption | constructor].
     - (* RPostPolicy *)
-      apply within_forall. apply http_calls_cok.
-      destruct (q_object q =? "") eqn:E0.
-      + apply str_eqb_true in E0. rewrite E0. rewrite append_nil_r. apply under_bucket_dir. exact G.
-      + simpl in HP. apply negb_false_iff in HP.
-        destruct (starts_with_slash_spec _ HP) as [r Er].
-        unfold norm_object in Ek. rewrite HP in Ek. rewrite Er in Ek. inversion Ek; subst k.
-        rewrite Er. apply under_opath; [exact G|]. apply ok_slash. apply HR. left. reflexivity.
+      assert (Ok : ok (split_slash k)) by (apply ok_slash; apply HR; left; reflexivity).
+      apply within_forall. apply http_calls_cok. exact (under_opath (q_bucket q) k G Ok).
   Qed.
 
   (* ----- a directory string with one trailing "/" removed ----- *)
@@ -1440,16 +1435,16 @@ Lemma rels_ok_of : forall forbid q, existsb (fun s => escapes forbid [] (split_s
 Proof. intros forbid q H s Hs. exact (existsb_false_in _ _ _ s H Hs). Qed.
 
 Theorem calls_contained_partial : forall fx q,
-  bad_bucket (q_bucket q) = false -> req_climbs q = false -> req_noslash q = false ->
+  bad_bucket (q_bucket q) = false -> req_climbs q = false ->
   forallb call_contained (calls fx q) = true.
 Proof.
-  intros fx q GB T NS.
+  intros fx q GB T.
   assert (G : good (q_bucket q)) by exact GB.
   unfold req_climbs in T. apply orb_false_iff in T. destruct T as [TR TS].
   pose proof (rels_ok_of forbid_none q TR) as HR.
   assert (F : Forall (cokc forbid_none) (calls fx q)).
   { destruct (object_route (q_route q)) eqn:OR.
-    - exact (calls_object_cok forbid_none fx q G eq_refl OR HR TS NS).
+    - exact (calls_object_cok forbid_none fx q G eq_refl OR HR TS).
     - exact (calls_other_cok forbid_none eq_refl fx q G OR HR TS). }
   apply forallb_forall. intros [b c] Hc. rewrite Forall_forall in F. pose proof (F _ Hc) as K. unfold cokc in K. simpl in K.
   exact (cok_contained b c (ctx_good fx q b c GB TS Hc) K).
@@ -1470,12 +1465,12 @@ Proof.
 Qed.
 
 Theorem contained_partial2 : forall fx q,
-  bad_bucket (q_bucket q) = false -> req_climbs q = false -> req_noslash q = false ->
+  bad_bucket (q_bucket q) = false -> req_climbs q = false ->
   (forall k, In k (q_keys q) -> climbs k = false) ->
   all_contained fx q = true.
 Proof.
-  intros fx q GB T NS HK. unfold all_contained. apply andb_true_iff. split.
-  - exact (calls_contained_partial fx q GB T NS).
+  intros fx q GB T HK. unfold all_contained. apply andb_true_iff. split.
+  - exact (calls_contained_partial fx q GB T).
   - pose proof (purge_candidates_cok forbid_none (q_bucket q) (q_keys q) GB HK) as P.
     apply forallb_forall. intros c Hc. rewrite Forall_forall in P. exact (cok_contained _ c GB (P c Hc)).
 Qed.
@@ -1536,9 +1531,9 @@ Qed.
 
 Theorem uploads_hidden_partial2 : forall fx q,
   bad_bucket (q_bucket q) = false -> q_bucket q <> ".uploads" ->
-  req_enters_uploads q = false -> req_noslash q = false -> uploads_hidden fx q = true.
+  req_enters_uploads q = false -> uploads_hidden fx q = true.
 Proof.
-  intros fx q GB NU T NS. unfold uploads_hidden.
+  intros fx q GB NU T. unfold uploads_hidden.
   destruct (object_route (q_route q)) eqn:OR; [|reflexivity]. simpl.
   apply negb_true_iff.
   assert (G : good (q_bucket q)) by exact GB.
@@ -1546,7 +1541,7 @@ Proof.
   unfold req_enters_uploads in T. rewrite OR in T. simpl in T.
   apply orb_false_iff in T. destruct T as [TR TS].
   pose proof (rels_ok_of forbid_uploads q TR) as HR.
-  pose proof (calls_object_cok forbid_uploads fx q G Bb OR HR TS NS) as F.
+  pose proof (calls_object_cok forbid_uploads fx q G Bb OR HR TS) as F.
   destruct (existsb call_in_uploads (calls fx q)) eqn:EX; [|reflexivity].
   apply existsb_exists in EX. destruct EX as [[b c] [Hc Hu]].
   rewrite Forall_forall in F. pose proof (F _ Hc) as K. unfold cokc in K. simpl in K.
@@ -1650,20 +1645,21 @@ Theorem bad_bucket_refuted :
   map (fun c => effective (snd c)) (calls fx_demo bad_get) = [None; Some "/etc/secret"].
 Proof. vm_compute. repeat split; reflexivity. Qed.
 
-(* finding 3: POST /oth with the form field key = "er/obj" writes /buckets/other/obj *)
+(* former finding 3 (repaired in /repo): POST /oth with the form field key = "er/obj" wrote
+   /buckets/other/obj; it now writes /buckets/oth/er/obj, inside the bucket *)
 Definition post_noslash : req := rqb RPostPolicy "oth" "er/obj".
 
-Theorem postpolicy_refuted :
-  bad_bucket (q_bucket post_noslash) = false /\ req_climbs post_noslash = false /\ req_noslash post_noslash = true /\
-  map snd (calls fx_demo post_noslash) = [Http MPut "/buckets/other/obj"] /\
-  forallb call_contained (calls fx_demo post_noslash) = false.
+Theorem postpolicy_repaired :
+  bad_bucket (q_bucket post_noslash) = false /\ req_climbs post_noslash = false /\
+  map snd (calls fx_demo post_noslash) = [Http MPut "/buckets/oth/er/obj"] /\
+  forallb call_contained (calls fx_demo post_noslash) = true.
 Proof. vm_compute. repeat split; reflexivity. Qed.
 
 (* non-vacuity: an ordinary request satisfies the hypotheses and produces calls *)
 Example partial_nonvacuous :
   let q := rq RPutTag "x/./y//z" "" "" [] in
   bad_bucket (q_bucket q) = false /\ req_dotdot q = false /\ req_uploads_seg q = false /\
-  req_climbs q = false /\ req_enters_uploads q = false /\ req_noslash q = false /\
+  req_climbs q = false /\ req_enters_uploads q = false /\
   map snd (calls fx_demo q) = [GLookup "/buckets/b/x/./y/" "z"] /\
   all_contained fx_demo q = true /\ uploads_hidden fx_demo q = true.
 Proof. vm_compute. repeat split; reflexivity. Qed.
